@@ -177,6 +177,7 @@ class Check:
         if self.broken:
             print("%s: no verdict - %d rule(s) lost their anchor (exit 2)" % (self.prop, len(self.broken)))
             return 2
-        print("%s: %d rule instance(s) in %d rule(s) examined, all hold (%.1fs, tier %s)" % (
-            self.prop, len(self.instances), len(by_rule), wall, self.tier))
+        print("%s: %d rule instance(s) in %d rule(s) examined, %s (%.1fs, tier %s)" % (
+            self.prop, len(self.instances), len(by_rule),
+            "all hold" if not known else "no new violation; %d recorded finding(s) reported above" % len(known), wall, self.tier))
         return 0
